@@ -7,6 +7,7 @@ import (
 	"fmt"
 	"strings"
 	"sync"
+	"verif/clih"
 
 	"ariga.io/atlas/sql/migrate"
 	"ariga.io/atlas/sql/schema"
@@ -283,7 +284,7 @@ func Run(r *report.Run) {
 	if r.Tier == "thorough" {
 		k = 3
 	}
-	r.Rule = fmt.Sprintf("every engine-valid state of the SQLite universe with <=%d features x 2 DDL spellings, created on a real engine by our own writer; HCL export (MarshalSpec of the inspected realm) evaluated and diffed both ways and applied to an empty engine; SQL export (PlanModeDump plan, default formatter, read back through the SQLite statement scanner) executed on an empty engine and diffed both ways; catalogue of each recreated database compared with the original through our own pragma dump; two inspections must give identical bytes; non-trivial = state with >=1 feature; distinct = (state, spelling)", k)
+	r.Rule = fmt.Sprintf("every engine-valid state of the SQLite universe with <=%d features x 2 DDL spellings, created on a real engine by our own writer; HCL export (MarshalSpec of the inspected realm) evaluated and diffed both ways and applied to an empty engine; SQL export (PlanModeDump plan, default formatter, read back through the SQLite statement scanner) executed on an empty engine and diffed both ways; catalogue of each recreated database compared with the original through our own pragma dump; two inspections must give identical bytes; CLI slice (states with one feature fewer): the same through the real `atlas schema inspect` (HCL and {{ sql . }}), the SQL text executed by our own connection, the HCL applied by `atlas schema apply`, `atlas schema diff` synced in both directions; non-trivial = state with >=1 feature; distinct = (state, spelling)", k)
 	r.Assumptions = []string{
 		"catalogue comparison normalises auto-index names, the origin of unique indexes, column order and the ordinal name atlas gives unnamed foreign keys",
 	}
@@ -316,12 +317,34 @@ func Run(r *report.Run) {
 	}
 	r.Set("states", len(states))
 	r.Set("skipped_engine_invalid", skipped)
+	// CLI slice: states with <=1 feature (thorough: <=2) through the real `schema inspect` / `schema apply` / `schema diff`.
+	var ccs []Case
+	for _, s := range squ.Universe(k - 1) {
+		for sp := 0; sp < 2; sp++ {
+			ccs = append(ccs, Case{s.Names(), sp})
+		}
+	}
+	r.Set("cli_cases", runCLI(ctx, r, ccs))
 }
 
 func Replay(r *report.Run, raw json.RawMessage) {
 	var v struct{ Case Case }
 	if err := json.Unmarshal(raw, &v); err != nil {
 		r.Violate("", "bad replay file: "+err.Error(), nil)
+		return
+	}
+	var cv struct {
+		Case struct {
+			C *Case `json:"cli"`
+		}
+	}
+	if json.Unmarshal(raw, &cv) == nil && cv.Case.C != nil {
+		defer clih.Cleanup()
+		r.Case("a", true)
+		r.Case("b", true)
+		if p, _ := evalCLI(context.Background(), *cv.Case.C); len(p) > 0 {
+			r.Violate(classify(stateOf(cv.Case.C.S).Build()), strings.Join(p, " | "), map[string]any{"cli": cv.Case.C})
+		}
 		return
 	}
 	res := Eval(context.Background(), v.Case)
